@@ -205,6 +205,11 @@ func selectValues(target string, rq reqT) []match {
 		}
 		out = append(out, match{coll, p.n, p.v})
 	}
+	if coll == "ARGS_GET" {
+		// the query string is parsed into a map and added in sorted order of the names as sent
+		sort.SliceStable(out, func(i, j int) bool { return out[i].key < out[j].key })
+	}
+	// collections are visited in sorted order of the case-folded name (the harness fixes map order)
 	sort.SliceStable(out, func(i, j int) bool { return strings.ToLower(out[i].key) < strings.ToLower(out[j].key) })
 	return out
 }
